@@ -34,7 +34,7 @@ class C17(Pipeline):
     gens = [Gen("SchedulerGen", "SchedulerGen_cover", "bfs", tiers=("quick",), timeout=300, cap=1700),
             Gen("SchedulerGen", "SchedulerGen_cover", "bfs", tiers=("thorough",), timeout=300),
             Gen("SchedulerGen", "SchedulerGen_sim", "simulate", num=200, depth=14, tiers=("quick",), timeout=300),
-            Gen("SchedulerGen", "SchedulerGen_sim", "simulate", num=2500, depth=14, tiers=("thorough",), timeout=1200)]
+            Gen("SchedulerGen", "SchedulerGen_sim", "simulate", num=1500, depth=14, tiers=("thorough",), timeout=1200)]
     driver_pkg = "drivers/scheduler"
     driver_test = "TestDriveScheduler"
     trace_module = "SchedulerTrace"
